@@ -27,6 +27,9 @@ def run(rep):
     p7(rep, w)
     p8(rep, w)
     p9(rep, w)
+    c01.r1(rep, w)     # memory safety needs complete tracing: an untraced edge is a use-after-free at the next collection
+    import c17
+    c17.l6(rep, w, 'C02')   # a stale throw site makes runtime_error index the wrong chunk's line table (host panic)
 
 
 def const_usize(o):
